@@ -235,7 +235,12 @@ func zzSameAttrs(a, b zzDigestT) bool {
 			}
 			continue
 		}
-		if x.Parent != y.Parent || x.Removed != y.Removed || x.UserCreated != y.UserCreated {
+		if x.Parent != y.Parent || x.Removed != y.Removed || x.UserCreated != y.UserCreated || x.Created != y.Created {
+			return false
+		}
+		// the recorded revision count; a count <= 1 is by design replaced with the current
+		// counter when the metadata is read (readDiskData), so it is compared only when set
+		if x.RevisionCounter > 1 && y.RevisionCounter > 1 && x.RevisionCounter != y.RevisionCounter {
 			return false
 		}
 		if a.inodes[i] != b.inodes[i] {
